@@ -107,6 +107,7 @@ func runC02(c *Ctx) {
 	L.Rule("R-C02-ORIGIN", "the value handed to a callback comes from a detaching store call (or a never-inserted buffered item, or the locked drain of lockedMap.Clear, or is forwarded inside a wrapper)", 12)
 	L.Rule("R-C02-DETACH", "lockedMap.Update/Del yield a stored value only after mutating that key, write lock held from lookup to mutation", 2)
 	L.Rule("R-C02-VERDICT", "store.Set answers 'stored' exactly on the paths that filed the item: the applier reports a refused item to OnReject/OnExit, so a wrong 'refused' hands out a value that stays resident", 2)
+	L.Rule("R-C02-NORESTORE", "SetWithTTL stores once, before it reports the replaced value, and never after", 1)
 	L.Rule("R-C02-ORDER", "a victim's Value is assigned from the detaching Del before it is reported", 1)
 
 	tbs := map[*ssa.Function]*TB{}
@@ -177,6 +178,33 @@ func runC02(c *Ctx) {
 
 	detachRule(c, "R-C02-DETACH", tbOf, locks)
 	transferRule(c, "R-C02-VERDICT")
+	c.Group("R-C02-NORESTORE", "Cache.SetWithTTL", func() {
+		// once SetWithTTL has handed the replaced value to onExit nothing is written into the map again in
+		// that call (no "roll back" that re-stores the value just reported gone), and it is written at most
+		// once before: exactly one store call, which precedes the report
+		fn := P.Fn("ristretto", "Cache", "SetWithTTL")
+		tb := newTB(fn)
+		var stores, reports []ssa.Instruction
+		for _, ci := range allCalls(fn) {
+			cc := ci.Common()
+			if cc.IsInvoke() && recvName(cc.Value.Type()) == "store" && (cc.Method.Name() == "Update" || cc.Method.Name() == "Set") {
+				stores = append(stores, ci)
+			}
+			if !cc.IsInvoke() && staticCallee(cc) == nil && strings.HasPrefix(tb.T(cc.Value).String(), "fld[on") {
+				reports = append(reports, ci)
+			}
+		}
+		var problems []string
+		if len(stores) != 1 {
+			problems = append(problems, fmt.Sprintf("%d store calls in SetWithTTL (want the one Update)", len(stores)))
+		}
+		for _, r := range reports {
+			if b, _ := reach(after(r), isAnyInstr(stores), nil, nil); b != nil {
+				problems = append(problems, "a store call is reachable after a value was reported gone: the reported value (or another one) is written back and served again")
+			}
+		}
+		L.Check(len(problems) == 0 && len(reports) > 0, "R-C02-NORESTORE", "Cache.SetWithTTL", "one store.Update, before the report of the replaced value; nothing is stored after it", strings.Join(problems, "; "), fn.Pos())
+	})
 }
 
 // detachRule: lockedMap.Update/Del yield a stored value only after mutating that key,
